@@ -10,6 +10,12 @@ tools/py2lean_types.py on every run) equal the hand-written model `Types.intCode
 (`C19.int_lawful`) about the translated methods; `IntClass.sim` makes every theorem about `Inst.run (intInst t)`
 (`C19.pack_reflects_last_value`, `size_is_packed_length`, `value_is_last_set`, `unpack_then_pack`, `observers_inert`)
 a theorem about operation sequences on the translated methods.
+
+WHAT THE HYPOTHESES EXCLUDE (audit round 8): offsets are `Nat` (`*_from_bytes_eq (off : Nat)`: the prelude evaluates negative
+offsets, no theorem covers them — "all offsets" means all NON-NEGATIVE offsets); the value / size slots hold `Option Int`
+values (`SignedChar("x")` and other non-integers in a slot are outside); `IntClass.runOp` maps an error to
+`(o, .raised)`: "an exception leaves the instance unchanged" is built into the observer, not proved.  Only these eight
+integer classes have an operation-sequence simulation (`sim_run`).
 -/
 namespace PlumVerif.TieTypes
 open PlumVerif PlumVerif.Py PlumVerif.Types
